@@ -85,6 +85,9 @@ def serialLt (a b : Nat) : Bool :=
   let b := b % two32
   (decide (a < b) && decide (b - a < two31)) || (decide (a > b) && decide (a - b > two31))
 
+/-- `Serial(a) == b` (and `!=` its negation): equality modulo 2^32 -/
+def serialEq (a b : Nat) : Bool := a % two32 == b % two32
+
 /-- `Serial(a) > b` -/
 def serialGt (a b : Nat) : Bool :=
   let a := a % two32
@@ -428,6 +431,15 @@ def feedLoop (fix : Bool) (s : Inbound) : List Msg → R
     | .error e => .error e
     | .ok s' => if s'.done then .ok s' else feedLoop fix s' ms
 
+/-- a caller that keeps feeding every message it has, also after `process_message` returned `True`
+(a call on a finished `Inbound` opens a transaction again; it is rolled back on exit) -/
+def feedAll (fix : Bool) (s : Inbound) : List Msg → R
+  | [] => .ok s
+  | m :: ms =>
+    match procMessage fix s m with
+    | .error e => .error e
+    | .ok s' => feedAll fix s' ms
+
 /-- `Inbound.__exit__(exc_type, exc_val, exc_tb)`: `if self.txn: self.txn.rollback()` — an open transaction is
 rolled back whether or not an exception is in flight (it is never committed here); the manager's zone is
 what it was -/
@@ -453,6 +465,15 @@ def drive (fix : Bool) (c : Config) (z0 : Zone) (msgs : List Msg) (callerRaises 
     match feedLoop fix s msgs with
     | .error (e, z) => ⟨some e, false, z⟩
     | .ok s' => ⟨none, s'.done, s'.exit (callerRaises && !s'.done)⟩
+
+/-- the same block when the caller does not stop at `True` but feeds everything -/
+def driveAll (fix : Bool) (c : Config) (z0 : Zone) (msgs : List Msg) : Driven :=
+  match Inbound.init c.origin z0 c.rdtype c.serial c.isUdp with
+  | .error e => ⟨some e, false, z0⟩
+  | .ok s =>
+    match feedAll fix s msgs with
+    | .error (e, z) => ⟨some e, false, z⟩
+    | .ok s' => ⟨none, s'.done, s'.exit false⟩
 
 /-! ## `make_query` / `extract_serial_from_query` -/
 
